@@ -85,10 +85,25 @@ func c10(r *Report) propMeta {
 
 	r.Rule("C10.R5", "E3 penalty")
 	ot := bCB + "OnSigningTimeout"
-	r.Gate("penalise-existing-active-only", ot, CallEff("Keeper.DeactivateMember"), []Cond{nilErrOf("Keeper.GetMember"), {Op: "BOOL", A: []string{"field:Member.IsActive"}, Want: true, Desc: "member.IsActive"}}, GateOpts{})
+	// an already inactive member is not penalised again: the callback skips it, OR DeactivateMember itself returns early for
+	// an inactive member; each alone suffices (seed C10-8 removed both)
+	r.AnyOf("inactive-member-not-penalised-again", "OnSigningTimeout deactivates only existing, active members, OR bandtss DeactivateMember is a no-op for an inactive member", map[string]func(*Report){
+		"callback-skips-inactive": func(s *Report) {
+			s.Gate("penalise-existing-active-only", ot, CallEff("Keeper.DeactivateMember"), []Cond{nilErrOf("Keeper.GetMember"), {Op: "BOOL", A: []string{"field:Member.IsActive"}, Want: true, Desc: "member.IsActive"}}, GateOpts{})
+		},
+		"deactivate-idempotent": func(s *Report) {
+			s.Gate("deactivate-only-active", bK+"DeactivateMember", CallEff("Keeper.SetMember"), []Cond{{Op: "BOOL", A: []string{"field:Member.IsActive"}, Want: true, Desc: "member.IsActive"}}, GateOpts{})
+			s.Gate("deactivate-only-active-tss", bK+"DeactivateMember", CallEff("TSSKeeper.DeactivateMember"), []Cond{{Op: "BOOL", A: []string{"field:Member.IsActive"}, Want: true, Desc: "member.IsActive"}}, GateOpts{})
+		},
+	})
+	r.Gate("penalise-existing-only", ot, CallEff("Keeper.DeactivateMember"), nil, GateOpts{})
 	r.ArgHas("penalise-idle-member", ot, "Keeper.DeactivateMember", 1, 1, "param:idleMembers")
 	r.ArgHas("penalise-in-signing-group", ot, "Keeper.DeactivateMember", 2, 1, "field:Signing.GroupID", "call:TSSKeeper.MustGetSigning")
-	r.SameValue("penalise-the-checked-member", ot, ArgRef{"Keeper.GetMember", 1}, ArgRef{"Keeper.DeactivateMember", 1})
+	chk := "Keeper.GetMember" // the existence test may be GetMember or HasMember; the member tested is the one deactivated
+	if f := w.Fn(ot); f != nil && len(Calls(f, chk)) == 0 && len(Calls(f, "Keeper.HasMember")) > 0 {
+		chk = "Keeper.HasMember"
+	}
+	r.SameValue("penalise-the-checked-member", ot, ArgRef{chk, 1}, ArgRef{"Keeper.DeactivateMember", 1})
 	r.EffectSet("timeout-effects", ot, []string{"Keeper.ActivateMember", "Keeper.DeleteMember"}, nil)
 
 	// every idle member / every due signing is handled: the per-element loops have no early way out
@@ -105,6 +120,11 @@ func c10(r *Report) propMeta {
 
 	r.Rule("C10.R8", "E19 constructors of x/tss/types store their inputs unchanged")
 	r.CtorFaithful("ctor", faithfulCtors["tss"]...)
+
+	// shared mechanisms decided by other properties' rules, evaluated here too: Lagrange tables and input routing (a wrong
+	// coefficient or a panic in SubmitSignature makes complete attempts fail), partial-signature admission, DE queue arithmetic
+	r.Include("C03", "C03.R1", "C03.R3")
+	r.Include("C05", "C05.R4")
 
 	return propMeta{
 		Decided: []string{
